@@ -30,6 +30,11 @@ VECS = {
 }
 
 
+# three separate one-glyph boxes at equal distances are grouped in an order decided by id() (object addresses, DESIGN section 5): the engine's replay of a decision
+# prefix then diverges, so the three-box family leaves out the vectors ("zero", "neg") that make every glyph its own box
+STACK_VECS = ["default", "big", "none", "vert", "alltexts"]
+
+
 def setup():
     import pdfminer.utils as u
     s = numshim.install("utils", "layout")
@@ -79,6 +84,14 @@ def mkchar(ex, name, text, lo, hi, size=None, maxsize=20, degenerate=None):
     c.fontname = "F"
     c.adv = w
     c.matrix = (1, 0, 0, 1, x0, y0)
+    return c
+
+
+def mkfixed(text, x0, y0, size):
+    from pdfminer.layout import LTChar
+    c = LTChar.__new__(LTChar)
+    c.set_bbox((x0, y0, x0 + size, y0 + size))
+    c._text, c.size, c.upright, c.fontname, c.adv, c.matrix = text, size, True, "F", size, (1, 0, 0, 1, x0, y0)
     return c
 
 
@@ -182,6 +195,10 @@ def h_analyze(family="fixed2", vec="default", timeout=200, part=None, **kw):
                 chars.reverse()
         elif family == "fixed3":
             chars = [mkchar(ex, "c%d" % i, "abc"[i], -10, 60, size=10) for i in range(3)]
+        elif family == "stack3":
+            # two glyphs at fixed places, stacked (a vertical line when detect_vertical is on) or side by side (symbolic choice), and a third one anywhere
+            stacked = ex.choice(2, "stacked") == 1
+            chars = [mkfixed("a", 10, 30, 10), mkfixed("b", 10, 19, 10) if stacked else mkfixed("b", 21, 30, 10), mkchar(ex, "c2", "c", -10, 60, size=10)]
         else:
             raise KeyError(family)
         rect = LTRect(1, (5, 5, 20, 20))
@@ -378,6 +395,9 @@ def jobs(tier):
         for vec in ("default", "none", "vert", "neg"):
             for k in range(3):
                 J.append(Job("H1_analyze:fixed2:%s:%d" % (vec, k), "h_analyze", {"family": "fixed2", "vec": vec, "part": [k, 3, 9]}, 300, "H1_analyze"))
+        for vec in STACK_VECS:
+            for k in range(2):
+                J.append(Job("H1_analyze:stack3:%s:%d" % (vec, k), "h_analyze", {"family": "stack3", "vec": vec, "part": [k, 2, 6]}, 300, "H1_analyze"))
         for k in range(6):
             J.append(Job("H1_analyze:degenerate2:default:%d" % k, "h_analyze", {"family": "degenerate2", "vec": "default", "texts": 2, "part": [k, 6, 10]}, 300, "H1_analyze"))
     else:
@@ -388,6 +408,9 @@ def jobs(tier):
                 J.append(Job("H1_analyze:degenerate2:%s:%d" % (vec, k), "h_analyze", {"family": "degenerate2", "vec": vec, "part": [k, 4, 9]}, 1800, "H1_analyze"))
             for k in range(2):
                 J.append(Job("H1_analyze:fixed2:%s:%d" % (vec, k), "h_analyze", {"family": "fixed2", "vec": vec, "part": [k, 2, 8]}, 900, "H1_analyze"))
+        for vec in STACK_VECS:
+            for k in range(2):
+                J.append(Job("H1_analyze:stack3:%s:%d" % (vec, k), "h_analyze", {"family": "stack3", "vec": vec, "part": [k, 2, 6]}, 900, "H1_analyze"))
         for vec in ("default", "none", "vert"):
             for k in range(16):
                 J.append(Job("H1_analyze:fixed3:%s:%d" % (vec, k), "h_analyze", {"family": "fixed3", "vec": vec, "part": [k, 16, 12]}, 1800, "H1_analyze"))
